@@ -13,14 +13,17 @@ Upd == /\ More /\ Ev.op = "update"
        /\ Chk("total", total', Ev.total) /\ Chk("since", since', Ev.since) /\ Chk("state", st', Ev.state)
        /\ Chk("recs", recs', Ev.recs) /\ Chk("len(all_drift_states)", total', Ev.nstates) /\ Chk("all_drift_states[-1]", st', Ev.laststate)
        /\ RStatOK /\ ConfOK /\ Adv
+Rst == /\ More /\ Ev.op = "reset" /\ UserReset
+       /\ Chk("total", total', Ev.total) /\ Chk("since", since', Ev.since) /\ Chk("state", st', Ev.state) /\ Chk("recs", recs', Ev.recs)
+       /\ Chk("len(all_drift_states)", total', Ev.nstates) /\ Adv
 Diag == Note("Monte-Carlo bounds not well-formed, not inside their bracket on first use, or changed for a cached key",
-             More /\ Tested((IF st = "drift" THEN 0 ELSE since) + 1) /\
+             More /\ Ev.op = "update" /\ Tested((IF st = "drift" THEN 0 ELSE since) + 1) /\
              \E r \in lcfg.tracked : ~Ev.b[r].na /\
                 LET c1 == Bump(IF st = "drift" THEN Ones ELSE conf, Ev.yt, Ev.yp) IN
                 \/ ~BoundsWellFormed(Ev.b[r])
                 \/ Known(Key(r, c1)) /\ Ev.b[r] # cache[Lookup(Key(r, c1))][2]
                 \/ ~Known(Key(r, c1)) /\ ~\E r2 \in lcfg.tracked : Key(r2, c1) = Key(r, c1) /\ Ev.b[r2] = Ev.b[r] /\ BracketOK(Ev.b[r2], Ev.br[r2]),
              <<"bounds", Ev.b, "brackets", Ev.br>>)
-Next == Diag /\ Upd
+Next == Diag /\ (Upd \/ Rst)
 Spec == Init /\ [][Next]_tvars
 =============================================================================
